@@ -37,3 +37,7 @@ func (s *Service) VerifPresenceQueueCap() int { return s.presence.VerifQueueCap(
 // VerifStartSurveyor subscribes the surveyor to the query channel, as Listen does once the
 // cluster is up.
 func (s *Service) VerifStartSurveyor() { s.surveyor.Start() }
+
+// VerifClosePresence stops the presence notification poller of the service (Service.Close leaves
+// it running); the monitors create and discard many services per process.
+func (s *Service) VerifClosePresence() { s.presence.Close() }
